@@ -142,3 +142,65 @@ def base_cfg(strategy, threads=1, **kw):
              watchdog_ms=0, log_chooser=False)
     c.update(kw)
     return c
+
+
+def symmetric_graph(rng, gid):
+    """F5: k identical processes with m local states each; a state is the vector of local states; a step moves one
+    process along the shared local transition table, optionally guarded by a predicate on the multiset of the others.
+    Transitions, boundary and properties are invariant under permutations of the processes; rep = sorted vector."""
+    k = rng.choice([2, 2, 3])
+    m = rng.choice([2, 3]) if k == 3 else rng.choice([2, 3, 4])
+    table = [[t for t in range(m) if rng.random() < 0.5 and t != l] for l in range(m)]
+    for l in range(m - 1):
+        if not table[l] and rng.random() < 0.8:
+            table[l] = [l + 1]
+    guard_state = rng.randrange(m)
+    guard_on = rng.random() < 0.4         # a step into local state g needs nobody else to be in g (mutual exclusion style)
+    n = m ** k
+
+    def dec(s):
+        v = []
+        x = s - 1
+        for _ in range(k):
+            v.append(x % m)
+            x //= m
+        return v
+
+    def enc(v):
+        x = 0
+        for i in reversed(range(k)):
+            x = x * m + v[i]
+        return x + 1
+    succ, rep = [], []
+    for s in range(1, n + 1):
+        v = dec(s)
+        row = []
+        for i in range(k):
+            for t in table[v[i]]:
+                if guard_on and t == guard_state and any(v[j] == t for j in range(k) if j != i):
+                    row.append(0)      # ignored action
+                else:
+                    w = list(v)
+                    w[i] = t
+                    row.append(enc(w))
+        succ.append(row)
+        rep.append(enc(sorted(v)))
+    multisets = sorted(set(tuple(sorted(dec(s))) for s in range(1, n + 1)))
+
+    def sym_set(p):
+        chosen = set(ms for ms in multisets if rng.random() < p)
+        return [s for s in range(1, n + 1) if tuple(sorted(dec(s))) in chosen]
+    inb = [True] * n
+    if rng.random() < 0.3:
+        out = set(sym_set(0.15))
+        inb = [s not in out for s in range(1, n + 1)]
+    init_v = [rng.randrange(m)] * k if rng.random() < 0.7 else sorted(rng.randrange(m) for _ in range(k))
+    init = [enc(init_v)]
+    inb[init[0] - 1] = True
+    props = []
+    for i in range(rng.randint(1, 3)):
+        kind = rng.choice(["always", "sometimes"])
+        props.append(dict(kind=kind, name="p%d" % (i + 1), sat=sym_set(rng.choice([0.3, 0.6, 0.9]))))
+    if rng.random() < 0.7:
+        props.append(dict(kind="always", name="keep", sat=list(range(1, n + 1))))
+    return dict(id=gid, family="table", n=n, init=init, succ=succ, inb=inb, props=props, params=[], poison=0, rep=rep)
